@@ -61,7 +61,7 @@ class ReleaseResponse(AbstractAcseApdu):
         # Decode the AARQ  data
         object_dict = dict()
         # use the data in tags to go through the bytes and create objects.
-        while True:
+        while len(data) > 0:
             # TODO: this does not take into account when defining objects in dict and not using them.
             object_tag = data.pop(0)
             object_desc = ReleaseResponse.PARSE_TAGS.get(object_tag, None)
